@@ -11,4 +11,9 @@ open Strengths.Gen.PyIdioms
 and reads dictionaries by key) -/
 theorem kinetics_value_semantic : valueSemantic inv_kinetics = true := by decide +kernel
 
+/-- `kinetics.py` never aliases an array on purpose: no `np.asarray`, `np.frombuffer`, `.view(…)`, `memoryview` — what a function
+returns is a fresh object (the model's values are immutable; this is the source fact that lets mutation of a returned
+object be ignored) -/
+theorem kinetics_no_views : views_kinetics = [] := by decide +kernel
+
 end Strengths.PyIdioms
